@@ -380,6 +380,16 @@ func runImpl(input string) (string, error) {
 			queues[cs.q] = q
 		}
 	}
+	// foreign ids are allocated up front: idOf is read-only while the scenario runs
+	for _, a := range script {
+		if a.At(0).Str() == "F" {
+			for n := a.At(1).Int(); n >= 0 && n < 64 && len(r.foreign) <= n; {
+				id := xid.New()
+				r.idOf[id] = 900 + len(r.foreign)
+				r.foreign = append(r.foreign, id)
+			}
+		}
+	}
 	defer func() {
 		close(r.endCh)
 		for _, q := range queues {
@@ -471,12 +481,8 @@ func runImpl(input string) (string, error) {
 			}
 		case "F":
 			n := a.At(1).Int()
-			for len(r.foreign) <= n {
-				id := xid.New()
-				r.mu.Lock()
-				r.idOf[id] = 900 + len(r.foreign)
-				r.mu.Unlock()
-				r.foreign = append(r.foreign, id)
+			if n < 0 || n >= len(r.foreign) {
+				return "", fmt.Errorf("bad F")
 			}
 			ret, err := r.issue(900+n, -1, a.At(2).Int(), a.At(3).Int(), a.At(4).Bool(), r.foreign[n])
 			if err != nil {
